@@ -1398,13 +1398,44 @@ fn show_script(script: &[(usize, u8)]) -> String {
     script.iter().map(|(t, u)| format!("{t}{}", ["A", "B", "C", "D"][*u as usize])).collect::<Vec<_>>().join(" ")
 }
 
+// ------------------------------------------------------------------ stream V helpers: every `Transaction` variant
+
+fn gen_variant(r: &mut Rng, val: &mut u64) -> Transaction {
+    *val += 1;
+    let v = *val;
+    let k = r.below(4);
+    match r.below(12) {
+        0 | 1 => Transaction::Put { key: format!("d{k}"), data: v.to_le_bytes().to_vec() },
+        2 => Transaction::Delete { key: format!("d{k}") },
+        3 => Transaction::Embed { key: format!("e{k}"), vector: (0..1 + r.below(4)).map(|i| (v % 7) as f32 + i as f32 * 0.5).collect() },
+        4 => Transaction::NodeCreate { key: format!("v{k}"), label: format!("L{}", r.below(2)) },
+        5 => Transaction::NodeDelete { key: format!("v{k}") },
+        6 => Transaction::EdgeCreate { from: format!("v{k}"), to: format!("v{}", r.below(4)), edge_type: format!("t{}", r.below(2)) },
+        7 => Transaction::TableInsert { table: format!("tb{}", r.below(2)), values: v.to_le_bytes().to_vec() },
+        8 => Transaction::TableUpdate { table: format!("tb{}", r.below(2)), row_id: r.below(3), values: v.to_le_bytes().to_vec() },
+        9 => Transaction::TableDelete { table: format!("tb{}", r.below(2)), row_id: r.below(3) },
+        10 => Transaction::CompareAndSwap { key: format!("d{k}"), expected_data: vec![], new_data: v.to_le_bytes().to_vec() },
+        _ => Transaction::CompareAndSwap { key: format!("d{k}"), expected_data: (1 + r.below(v)).to_le_bytes().to_vec(), new_data: v.to_le_bytes().to_vec() },
+    }
+}
+/// keys written by transactions (not the chain's own records: `chain:*`, the graph records `Chain::append` creates
+/// beside each block — `node:<n>`, `node:<n>:in|out`, `edge:<n>`, `_graph_idx:*`)
+fn is_user_key(k: &str) -> bool {
+    let numbered = |rest: &str| rest.chars().next().is_some_and(|c| c.is_ascii_digit());
+    !(k.starts_with("chain:") || k.starts_with("_graph") || k.strip_prefix("node:").is_some_and(numbered) || k.strip_prefix("edge:").is_some_and(numbered))
+}
+fn user_dump(s: &TensorStore) -> Dump {
+    store_dump(s).into_iter().filter(|(k, _)| is_user_key(k)).collect()
+}
+
 fn main() {
     let args = parse_args();
     let mut rep = Report::new(
         "seeded op sequences / block sequences / mutations; a case is non-trivial when it appends or commits at least one \
          block (workspace stream: >=1 successful non-empty commit; append stream: >=1 accepted block; tamper stream: one \
          mutation applied to a stored block of a verifying chain; replay: >=1 block applied; concurrent: >=1 commit Ok; \
-         late_fail: >=1 commit of the history returned an error); distinct = distinct canonical case text",
+         late_fail: >=1 commit of the history returned an error; reopen: every case (a restart over a chain of >=1 appended block); \
+         replay.verdicts: >=1 block accepted and >=1 rejected; variants: >=1 successful commit); distinct = distinct canonical case text",
     );
     rep.expected_branches = [
         "ws.commit.ok_h", "ws.commit.empty", "ws.commit.err_not_active", "ws.commit.err_too_many", "ws.commit.err_conflict",
@@ -1416,11 +1447,27 @@ fn main() {
         "late_fail.kind.late_unknown_proposer", "late_fail.kind.late_unknown_proposer_merged", "late_fail.kind.early_too_many",
         "late_fail.kind.early_conflict", "late_fail.kind.early_not_active", "late_fail.late.k0", "late_fail.late.k1", "late_fail.late.k2",
         "late_fail.late.k3", "late_fail.unreg.removed", "late_fail.rereg.ok",
+        "ws.cas.ok", "ws.cas.err_not_active", "ws.reopen.h_verifyok", "ws.history.empty", "ws.history.one", "ws.history.several", "late_fail.cas.ok",
+        "reopen.none.verify_ok", "reopen.remove_tip.verify_ok", "reopen.remove_inner.verify_err_not_found", "reopen.meta_ahead.verify_ok",
+        "reopen.meta_behind.verify_ok", "reopen.meta_deleted.verify_ok", "reopen.plant_next_valid.verify_ok",
+        "reopen.plant_next_badprev.verify_err_prev_hash", "reopen.plant_gap.verify_ok",
+        "replay.verdict.ok", "replay.verdict.err_state_root", "replay.verdict.err_height", "replay.verdict.err_prev_hash",
+        "replay.verdict.err_tx_root", "replay.verdict.err_unsigned", "replay.verdict.err_bad_sig",
+        "variants.late_fail.failed", "variants.op.Put", "variants.op.Delete", "variants.op.Embed", "variants.op.NodeCreate", "variants.op.NodeDelete",
+        "variants.op.EdgeCreate", "variants.op.TableInsert", "variants.op.TableUpdate", "variants.op.TableDelete", "variants.op.CompareAndSwap",
     ]
     .iter()
     .map(|s| s.to_string())
     .collect();
     let mut m = Model::spawn(&args.driver);
+    // wall time per stream, to stderr (diagnostic only; never part of the report)
+    let t_start = std::time::Instant::now();
+    let mut t_last = t_start;
+    let mut lap = move |name: &str| {
+        let now = std::time::Instant::now();
+        eprintln!("corr_chain: {name}: {:.2}s (total {:.2}s)", (now - t_last).as_secs_f64(), (now - t_start).as_secs_f64());
+        t_last = now;
+    };
     let root = Rng::new(args.seed);
     let scale: u64 = if args.thorough { 10 } else { 1 };
     let mut vio_seen: BTreeSet<String> = BTreeSet::new();
@@ -1490,6 +1537,7 @@ fn main() {
         }
     }
 
+    lap("workspace");
     // ---------------- stream A2: directed merge scenario (auto-merge on: orthogonal workspaces end in one block)
     for auto_merge in [true, false] {
         let ops = vec![Op::Begin(1), Op::Begin(2), Op::Begin(3), Op::Put(0, 100, 1), Op::Put(1, 200, 2), Op::Put(2, 300, 3), Op::Commit(0), Op::State, Op::Commit(1), Op::Commit(2), Op::State];
@@ -1506,6 +1554,7 @@ fn main() {
         rep.case("workspace.merge", Some(&format!("{auto_merge}")));
     }
 
+    lap("workspace.merge");
     // ---------------- stream L: sequential histories whose commit fails late (after the writes were applied)
     let mut r = root.fork("late_fail");
     let nlate = 3 + 150 * scale;
@@ -1591,6 +1640,7 @@ fn main() {
         }
     }
 
+    lap("late_fail");
     // ---------------- stream B1: raw appends (valid and invalid blocks), then verify
     let mut r = root.fork("append");
     for case in 0..150 * scale {
@@ -1673,6 +1723,7 @@ fn main() {
         }
     }
 
+    lap("append");
     // ---------------- stream B2: every single-field mutation of every stored block, chains of 1..=12 blocks
     let mut r = root.fork("tamper");
     let lens: Vec<u64> = if args.thorough { (0..=12).chain(0..=12).collect() } else { (0..=12).collect() };
@@ -1839,6 +1890,7 @@ fn main() {
         }
     }
 
+    lap("tamper");
     // ---------------- stream B3: restart (a new `Chain` object over the same store + `initialize()`), healthy and
     // damaged stores: tip / inner block record removed, height record ahead / behind / deleted, a block record planted
     // above the head (valid successor, wrong predecessor hash, with a gap).  The recovered head, `verify_chain`, the
@@ -1946,6 +1998,7 @@ fn main() {
         }
     }
 
+    lap("reopen");
     // ---------------- stream C: merkle root, the duplicated-tail pair on the real Block
     {
         let a = Tx::Put(1, 1).real();
@@ -2002,6 +2055,7 @@ fn main() {
         rep.case("merkle", if a.len() >= 2 { Some(&mkey) } else { None });
     }
 
+    lap("merkle");
     // ---------------- stream D: replay on two replicas, both store configurations
     let mut r = root.fork("replay");
     for case in 0..20 * scale {
@@ -2079,6 +2133,7 @@ fn main() {
         }
     }
 
+    lap("replay");
     // ---------------- stream D2: replica verdicts.  2-3 `TensorStateMachine` replicas with separate state stores,
     // bootstrapped from one genesis block, with and without validator keys; a sequence of blocks built on replica 0's
     // head, each check of `apply_block` / `Chain::append` individually violated in some of them (state root altered or
@@ -2087,9 +2142,17 @@ fn main() {
     // the implementation alone: a rejected block leaves the replica untouched; replicas in agreement give the same
     // verdict and end with the same state root.
     let mut r = root.fork("replay.verdicts");
+    // `apply_block` never touches the Raft node: one (costly to create) node serves every replica of this stream
+    let shared_raft = {
+        let id = Identity::generate();
+        Arc::new(RaftNode::new(id.node_id(), vec![], Arc::new(MemoryTransport::new(id.node_id())), RaftConfig::default()))
+    };
+    // the first two cases are directed (every defect once, in a fixed order, with and without validator keys)
+    const PLAN: &[usize] = &[9, 6, 8, 4, 5, 0, 1, 2, 3, 7, 9];
     for case in 0..30 * scale {
-        let nrep = 2 + r.below(2) as usize;
-        let with_reg = r.chance(1, 2);
+        let directed = case < 2;
+        let nrep = if directed { 3 } else { 2 + r.below(2) as usize };
+        let with_reg = if directed { case == 0 } else { r.chance(1, 2) };
         let ids: Vec<Identity> = (0..4).map(|_| Identity::generate()).collect();
         let reg = Arc::new(ValidatorRegistry::new());
         reg.register(&ids[1]);
@@ -2112,23 +2175,21 @@ fn main() {
             let chain = Arc::new(if with_reg { Chain::with_registry(graph, ids[1].node_id(), reg.clone()) } else { Chain::new(graph, ids[1].node_id()) });
             chain.initialize().unwrap();
             let state = TensorStore::new();
-            let transport = Arc::new(MemoryTransport::new(ids[1].node_id()));
-            let raft = Arc::new(RaftNode::new(ids[1].node_id(), vec![], transport, RaftConfig::default()));
-            let sm = TensorStateMachine::new(chain.clone(), raft, state.clone());
+            let sm = TensorStateMachine::new(chain.clone(), shared_raft.clone(), state.clone());
             reps.push(Rep { chain, chain_store, sm, state });
         }
         let base_ts = read_block(&reps[0].chain_store, 0).unwrap().header.timestamp;
         m.ask(&format!("rnew {nrep} {} 1000", u8::from(with_reg)));
         let rstate = |x: &Rep| format!("h={} verify={} blocks={} data={}", x.chain.height(), vres(x.chain.verify_chain()), show_heights(&blocks_present(&x.chain_store)), show_image(&data_image(&x.state)));
-        let nblocks = 2 + r.below(6);
+        let nblocks = if directed { PLAN.len() as u64 } else { 2 + r.below(6) };
         let mut val = 0u64;
         let mut script: Vec<String> = Vec::new();
         let mut accepted = 0u64;
         let mut rejected = 0u64;
         for j in 0..nblocks {
             let (mut hsel, mut prev, mut rootsel, mut sroot, mut sig) = ("ok", "ok", "ok", "ok", "ok");
-            if r.chance(2, 5) {
-                match r.below(9) {
+            if directed || r.chance(2, 5) {
+                match if directed { PLAN[j as usize] as u64 } else { r.below(9) } {
                     0 => hsel = "same",
                     1 => hsel = "skip",
                     2 => prev = "bad",
@@ -2137,7 +2198,8 @@ fn main() {
                     5 => sroot = "stale",
                     6 => sig = "none",
                     7 => sig = "bad",
-                    _ => sig = "wrongkey",
+                    8 => sig = "wrongkey",
+                    _ => {}
                 }
             }
             let ntx = 1 + r.below(4) as usize;
@@ -2161,7 +2223,7 @@ fn main() {
             let line = format!("rblock 0 {hsel} {prev} {rootsel} {sroot} {sig} {ts_off} {prop} {}", show_txs(&txs));
             m.ask(&line);
             script.push(line);
-            let skipper = if nrep > 2 && hsel == "ok" && r.chance(1, 8) { Some(nrep - 1) } else { None };
+            let skipper = if !directed && nrep > 2 && hsel == "ok" && r.chance(1, 8) { Some(nrep - 1) } else { None };
             let rounds = if r.chance(1, 6) { 2 } else { 1 }; // second round: the same block applied again
             for round in 0..rounds {
                 let mut pre_keys: Vec<(u64, [u8; 32], Dump)> = Vec::new();
@@ -2219,6 +2281,143 @@ fn main() {
         }
     }
 
+    lap("replay.verdicts");
+    // ---------------- stream V (implementation only): EVERY `Transaction` variant (Put, Delete, Embed, NodeCreate,
+    // NodeDelete, EdgeCreate, TableInsert, TableUpdate, TableDelete, CompareAndSwap) through the workspace pipeline:
+    // successful commits, commits that fail late (own key unregistered), fresh rollbacks, restarts.  Oracles: a failed
+    // commit / a fresh rollback / a restart leaves height, tip, every block and EVERY key of the store as they were;
+    // after a successful commit the chain verifies, is one block longer, and the keys written by transactions are
+    // exactly what replaying all blocks of the chain on an empty store gives (the model's `DataInv`, on the real store).
+    let mut r = root.fork("variants");
+    for case in 0..40 * scale {
+        let store = TensorStore::new();
+        let cfg = ChainConfig::new("n");
+        let mut tc = TensorChain::with_identity(store.clone(), cfg.clone(), node_identity());
+        tc.initialize().unwrap();
+        let me = tc.node_id().clone();
+        let mut script: Vec<String> = Vec::new();
+        let mut val = 0u64;
+        let mut committed = 0u64;
+        for _ in 0..3 + r.below(6) {
+            let w = tc.begin().unwrap();
+            let mut ops = Vec::new();
+            for _ in 0..1 + r.below(5) {
+                let t = gen_variant(&mut r, &mut val);
+                w.add_operation(t.clone()).unwrap();
+                ops.push(format!("{t:?}"));
+                rep.hit(&format!("variants.op.{}", format!("{t:?}").split(' ').next().unwrap_or("")));
+            }
+            let mode = match r.below(10) {
+                0..=5 => "commit",
+                6 => "rollback",
+                7 | 8 if tc.height() >= 1 => "late_fail",
+                9 => "restart_commit",
+                _ => "commit",
+            };
+            script.push(format!("begin; {}; {mode}", ops.join("; ")));
+            let input = |script: &Vec<String>| json!({"stream": "variants", "script": script});
+            let before = chain_snap(&tc, &store);
+            match mode {
+                "rollback" => {
+                    let res = tc.rollback(&w);
+                    let after = chain_snap(&tc, &store);
+                    if res.is_err() || after != before {
+                        violation(&mut rep, "tensor_chain.rollback/fresh_rollback_changed_state", &format!("rollback of a workspace begun right before (no commit in between) = {:?}: {}", res.map_err(|e| e.to_string()), snap_diff(&before, &after).join("; ")), input(&script));
+                    }
+                }
+                "late_fail" => {
+                    let _ = tc.validator_registry().remove(&me);
+                    let res = tc.commit(&w);
+                    tc.register_validator(tc.identity());
+                    let after = chain_snap(&tc, &store);
+                    rep.hit(&format!("variants.late_fail.{}", if res.is_err() { "failed" } else { "committed" }));
+                    if res.is_ok() || after != before || tc.verify().is_err() {
+                        violation(&mut rep, "tensor_chain.commit/failed_commit_not_atomic", &format!("commit with the node's key unregistered = {:?}; chain/store before vs after: {}", res.map(|_| ()).map_err(|e| e.to_string()), snap_diff(&before, &after).join("; ")), input(&script));
+                    }
+                }
+                _ => {
+                    if mode == "restart_commit" {
+                        tc = TensorChain::with_identity(store.clone(), cfg.clone(), node_identity());
+                        let init = tc.initialize();
+                        let after = chain_snap(&tc, &store);
+                        if init.is_err() || after != before {
+                            violation(&mut rep, "tensor_chain.initialize/restart_changed_chain", &format!("restart = {:?}: {}", init.map_err(|e| e.to_string()), snap_diff(&before, &after).join("; ")), input(&script));
+                        }
+                    }
+                    let res = tc.commit(&w);
+                    let replayed = TensorStore::new();
+                    for h in 0..=tc.height() {
+                        if let Ok(Some(b)) = tc.get_block(h) {
+                            for t in &b.transactions {
+                                let _ = apply_transaction_to_store(&replayed, t);
+                            }
+                        }
+                    }
+                    let (have, want) = (user_dump(&store), user_dump(&replayed));
+                    if res.is_err() || tc.height() != before.height + 1 || tc.verify().is_err() {
+                        violation(&mut rep, "tensor_chain.commit/sequential_commit_not_atomic", &format!("commit = {:?}, height {} -> {}, verify = {}", res.as_ref().map(|_| ()).map_err(|e| e.to_string()), before.height, tc.height(), vres(tc.verify())), input(&script));
+                    } else if have != want {
+                        let keys: Vec<String> = have.keys().chain(want.keys()).filter(|k| have.get(*k) != want.get(*k)).cloned().collect::<BTreeSet<_>>().into_iter().collect();
+                        violation(&mut rep, "tensor_chain.commit/store_not_replay_of_chain", &format!("after a successful commit the keys written by transactions differ from the replay of the chain's blocks on an empty store: {keys:?}"), input(&script));
+                    } else {
+                        committed += 1;
+                    }
+                }
+            }
+        }
+        let vkey = format!("{case} {}", script.join(" | "));
+        rep.case("variants", if committed > 0 { Some(&vkey) } else { None });
+        if case < 1 {
+            rep.sample(json!({"stream": "variants", "script": script, "height": tc.height(), "user_keys": user_dump(&store).keys().cloned().collect::<Vec<_>>()}));
+        }
+    }
+    lap("variants");
+    // ---------------- observations (outside the quantifier of the property, directed, implementation only)
+    {
+        // (a) a workspace may write under the chain's own key prefix: the record of block 1 is overwritten by a Put
+        let store = TensorStore::new();
+        let tc = TensorChain::with_identity(store.clone(), ChainConfig::new("n"), node_identity());
+        tc.initialize().unwrap();
+        let w = tc.begin().unwrap();
+        w.add_operation(Tx::Put(1, 1).real()).unwrap();
+        tc.commit(&w).unwrap();
+        let w = tc.begin().unwrap();
+        w.add_operation(Transaction::Put { key: "chain:block:1".into(), data: vec![1] }).unwrap();
+        let res = tc.commit(&w);
+        let ver = tc.verify();
+        if res.is_ok() && ver.is_err() {
+            rep.observe(json!({"class": "tensor_chain.commit/workspace_write_to_chain_namespace",
+                "note": "transaction keys are not separated from the chain's own records: begin; Put{key: \"chain:block:1\"}; commit succeeds on a chain of height 1 and overwrites the stored block 1, after which verify() fails although only begin/put/commit were used (the harness' generators and the model keep data keys and chain records apart)",
+                "ops": ["begin", "put d1", "commit", "begin", "put chain:block:1", "commit"], "commit": "ok", "verify": ver.map_err(|e| e.to_string()).err()}));
+        }
+        // (b) blocks built by TensorChain::commit replayed through TensorStateMachine::apply_block
+        for shared in [false, true] {
+            let store = TensorStore::new();
+            let tc = TensorChain::with_identity(store.clone(), ChainConfig::new("n"), node_identity());
+            tc.initialize().unwrap();
+            for i in 0..2u64 {
+                let w = tc.begin().unwrap();
+                w.add_operation(Tx::Put(i, i).real()).unwrap();
+                tc.commit(&w).unwrap();
+            }
+            let chain_store = TensorStore::new();
+            chain_store.put("chain:block:0", store.get("chain:block:0").unwrap()).unwrap();
+            let mut td = TensorData::new();
+            td.set("height", TensorValue::Scalar(ScalarValue::Int(0)));
+            chain_store.put("chain:meta", td).unwrap();
+            let graph = Arc::new(GraphEngine::with_store(chain_store.clone()));
+            let chain = Arc::new(Chain::new(graph, tc.node_id().clone()));
+            chain.initialize().unwrap();
+            let state = if shared { chain_store.clone() } else { TensorStore::new() };
+            let sm = TensorStateMachine::new(chain, shared_raft.clone(), state);
+            let verdicts: Vec<String> = (1..=tc.height()).map(|h| sm.apply_block(&tc.get_block(h).unwrap().unwrap()).map_or_else(|e| verr(&e), |()| "ok".into())).collect();
+            if verdicts.iter().any(|v| v != "ok") {
+                rep.observe(json!({"class": format!("tensor_chain.state_machine.apply_block/committed_block_rejected_{}_store_replica", if shared { "shared" } else { "separate" }),
+                    "note": "blocks produced by TensorChain::commit replayed through TensorStateMachine::apply_block on a fresh replica bootstrapped from the same genesis: the state root commit() wrote covers the proposer's whole store (chain records, graph records with wall-clock _created_at), so a replica with a separate state store rejects every block and a replica sharing its chain store rejects from block 2 on (Lean: committed_block_replays_on_shared_replica for the store image the model has, committed_block_rejected_by_separate_replica_witness)",
+                    "verdicts_blocks_1_2": verdicts}));
+            }
+        }
+    }
     // ---------------- stream F: real commit threads under the deterministic scheduler (tensor_store::verif::yield_point)
     // F0: one commit alone: its yield sequence against the model's atomic step list
     {
@@ -2248,6 +2447,7 @@ fn main() {
         rep.case("sched.solo", Some("solo"));
         rep.sample(json!({"stream": "sched.solo", "ops": show_txs(&ops), "yield_sequence": trace.iter().map(|s| format!("{} {}", s.site, s.key)).collect::<Vec<_>>(), "canonical": thread_trace(&trace, 0)}));
     }
+    lap("sched.solo");
     // F1: unit scripts. The first two are the Lean witnesses (`concurrent_commit_witness`: A A B B C C D D with the
     // loser restoring; `concurrent_commit_order_witness`: thread 0 up to apply, thread 1 completely, thread 0's rest);
     // the rest are seeded random scripts. Real results and final state are compared with the model run under the
@@ -2315,6 +2515,7 @@ fn main() {
             rep.sample(input);
         }
     }
+    lap("sched.units");
     // F2: seeded random schedules at single-store-call granularity, 2-3 threads (finer than the model's atomic
     // steps: oracle only, same classes as above)
     let mut r = root.fork("sched.raw");
@@ -2338,6 +2539,7 @@ fn main() {
         rep.case("sched.raw", if oks > 0 { Some(&rkey) } else { None });
     }
 
+    lap("sched.raw");
     // ---------------- stream E: 2-4 real threads committing concurrently (oracle only)
     // The first DIRECTED_MAX indices are one directed scenario (2 threads, plain workspaces, disjoint keys) retried
     // until the lost-commit interleaving has been produced once (bounded; the OS schedules the threads), then skipped.
@@ -2401,6 +2603,7 @@ fn main() {
         }
     }
 
+    lap("concurrent");
     // ---------------- observation outside the quantifier: multi-field boundary ambiguity of signing_bytes
     {
         let h1 = BlockHeader { quantized_codes: vec![0x4141; 4], timestamp: 0x4242_4242_4242_4242, proposer: String::new(), ..BlockHeader::default() };
